@@ -50,8 +50,8 @@ def cases(tier, seed):
                         continue
                     if not thorough and inp in ("cat-logsoftmax", "bin-logits", "emb") and (prod, style) != ("had", "cpt"):
                         continue
-                    for numbering in (["id", "gap"] if inp in ("cat-logits", "gau-lp", "mixed") or thorough else ["id"]):
-                        for k in ([2] if not thorough else [1, 2]):
+                    for numbering in (["id", "gap"] if inp in ("cat-logits", "gau-lp", "mixed") else ["id"]):
+                        for k in ([2] if not thorough or inp not in ("cat-logits", "gau-lp") else [1, 2]):
                             circ = dict(tree=tree, prod=prod, style=style, nary=nary, kin=k, ksum=k, kout=1 if inp != "cat-logits" else 2,
                                         inp="cat-logits" if inp == "mixed" else inp, numbering=numbering,
                                         outputs="two" if inp == "cat-probs" else "single")
